@@ -308,9 +308,9 @@ Definition xnodes (K : cfg) (xrefs : list rref) (t : cond) : list node :=
 
 (* ---------- the four phases ---------- *)
 Definition embed (K : kcfg) (ri : rinfo) : list (list node) :=
-  (* convert_rule finalises a referenced rule only if the backend opts in; convert_correlation_rule
-     always finalises *)
-  if k_finalize K || ri_corr ri then ri_fin ri else ri_raw ri.
+  (* convert_rule and convert_correlation_rule store the finalised queries of a referenced rule only
+     if the backend opts in (finalize_correlation_subqueries); otherwise the raw ones *)
+  if k_finalize K then ri_fin ri else ri_raw ri.
 
 Definition norm_nodes (K : kcfg) (als : list (str * list (str * nat * str))) (ref : rref) : outcome (list node) :=
   match als with
